@@ -7,6 +7,7 @@ from ..alg import AtomTable, Rat
 from ..dims import B_DIM, H_DIM, DimInterp, DimMismatch, Quant, UnitStr, UnitV, Ureg, dv, lenient_env
 from ..interp import Cols, Opaque, Unsupported
 from ..kernel import KernelError, summarise
+from ..alias import analyse
 from ..src import AnalysisError, loc, norm, own_nodes
 
 EM = "tdgl.em"
@@ -290,79 +291,6 @@ def distances(ctx):
            construct="cdist dispatch", loc=loc(f, f.node), message=f"dispatch table {table}", consequence="a metric/dimension pair is served by the wrong kernel")
 
 
-VIEW_FUNCS = ("atleast_1d", "atleast_2d", "atleast_3d", "asarray", "asanyarray", "squeeze", "ravel", "reshape", "transpose", "view")
-VIEW_ATTRS = ("T", "magnitude", "real", "imag", "m")
-
-
-def _aliases_after(fn: ast.FunctionDef):
-    """Flow-ordered may-alias-a-parameter analysis; yields (node, alias set in force) for every AugAssign / subscript store."""
-    params = {a.arg for a in fn.args.args + fn.args.kwonlyargs + fn.args.posonlyargs if a.arg not in ("self", "cls")
-              and not any(t in a.arg for t in ("h5", "group", "file", "path"))}      # HDF5 handles are written on purpose
-    alias = set(params)
-    out = []
-
-    def is_alias_expr(e):
-        if isinstance(e, ast.Name):
-            return e.id in alias
-        if isinstance(e, ast.Subscript):
-            return is_alias_expr(e.value)
-        if isinstance(e, ast.Attribute):
-            return e.attr in VIEW_ATTRS and is_alias_expr(e.value)
-        if isinstance(e, ast.Call):
-            f = e.func
-            nm = f.attr if isinstance(f, ast.Attribute) else getattr(f, "id", "")
-            if nm in VIEW_FUNCS:
-                if isinstance(f, ast.Attribute) and is_alias_expr(f.value):
-                    return True
-                return any(is_alias_expr(a) for a in e.args)
-        return False
-
-    def bind(t, v):
-        if isinstance(t, ast.Name):
-            if v is not None and is_alias_expr(v):
-                alias.add(t.id)
-            else:
-                alias.discard(t.id)
-        elif isinstance(t, (ast.Tuple, ast.List)):
-            if isinstance(v, (ast.Tuple, ast.List)) and len(v.elts) == len(t.elts):
-                for tt, vv in zip(t.elts, v.elts):
-                    bind(tt, vv)
-            else:
-                # x, y = np.atleast_2d(x, y): element i aliases argument i
-                if isinstance(v, ast.Call) and is_alias_expr(v):
-                    for tt in t.elts:
-                        if isinstance(tt, ast.Name):
-                            alias.add(tt.id)
-                else:
-                    for tt in t.elts:
-                        if isinstance(tt, ast.Name):
-                            alias.discard(tt.id)
-
-    def walk(stmts):
-        for s_ in stmts:
-            if isinstance(s_, (ast.FunctionDef, ast.ClassDef)):
-                continue
-            if isinstance(s_, ast.Assign):
-                for t in s_.targets:
-                    if isinstance(t, ast.Subscript):
-                        out.append((s_, t, is_alias_expr(t.value)))
-                for t in s_.targets:
-                    bind(t, s_.value)
-            elif isinstance(s_, ast.AugAssign):
-                tg = s_.target
-                base = tg.value if isinstance(tg, ast.Subscript) else tg
-                out.append((s_, tg, is_alias_expr(base)))
-            for fld in ("body", "orelse", "finalbody"):
-                sub = getattr(s_, fld, None)
-                if isinstance(sub, list) and sub and isinstance(sub[0], ast.stmt):
-                    walk(sub)
-            if isinstance(s_, ast.Try):
-                for h in s_.handlers:
-                    walk(h.body)
-    walk(fn.body)
-    return out
-
-
 def input_purity(ctx):
     repo = ctx.repo
     mods = ("tdgl.em", "tdgl.solution.solution", "tdgl.solution.data", "tdgl.fluxoid", "tdgl.geometry", "tdgl.sources.constant",
@@ -373,12 +301,14 @@ def input_purity(ctx):
             continue
         if any(getattr(d, "attr", getattr(d, "id", "")) == "njit" or "njit" in norm(d) for d in f.node.decorator_list):
             continue          # numba kernels write their freshly allocated output arrays element-wise (covered by C09 R09.3/4)
-        res = _aliases_after(f.node)
-        bad = [f"L{s_.lineno}: {norm(s_)[:70]}" for s_, t, al in res if al]
-        if not res and not f.node.args.args:
+        res = analyse(f.node)
+        bad = [f"L{s_.lineno}: {norm(s_)[:70]} [{what} -> argument {lab}]" for s_, lab, what in res.writes]
+        stores = [x for x in own_nodes(f.node) if isinstance(x, ast.AugAssign) or (
+            isinstance(x, ast.Assign) and any(isinstance(t, ast.Subscript) for t in x.targets))]
+        if not stores and not f.node.args.args:
             continue
         n += 1
-        ctx.ob("R20.8", f"{f.qual} does not write into its arguments", not bad, detail=bad, nontrivial=bool(res), where=f.fq,
+        ctx.ob("R20.8", f"{f.qual} does not write into its arguments", not bad, detail=bad, nontrivial=bool(stores), where=f.fq,
                construct=f"in-place modification of an argument in {f.qual}", loc=loc(f, f.node),
                message=f"{f.qual} modifies (a view of) one of its array arguments in place: {bad}",
                consequence="computing a field rescales the caller's current array: a second call on the same solution returns a different "
